@@ -291,8 +291,10 @@ Wt(d) ==
     [] d[1] \in {"grp", "ab"} -> 1 + Wt(d[2])
     [] d[1] = "nest" -> 1 + Wt(d[3])
     [] d[1] = "ann" -> 2 + Wt(d[3])
-    [] d[1] = "fc" -> 1 + Wt(d[2]) + Wt(d[3])
-    [] d[1] = "align" -> 2 + Wt(d[2])
+    \* normalisation may add one always_break wrapper per fill that has an always_break item,
+    \* so Wt(Norm(d)) <= 2 * Wt(d); what is normalised on access is counted twice
+    [] d[1] = "fc" -> 1 + 2 * Wt(d[2]) + Wt(d[3])
+    [] d[1] = "align" -> 2 + 2 * Wt(d[2])
 
 RECURSIVE StackWt(_, _)
 StackWt(st, i) == IF i > Len(st) THEN 0 ELSE Wt(st[i][3]) + StackWt(st, i + 1)
